@@ -1,2 +1,72 @@
-(* C08 placeholder *)
-From MPB Require Import Base.
+(* C08 — The filled part of a bar is proportional to progress and never moves
+   backwards. Statements only; proofs in PercentProofs.v (through Flocq's
+   correctness theorems for the binary64 operations the model executes).
+   History: on the pinned tree the product width*current was taken in uint64
+   and wrapped (50% of a total near 2^63 drew 0 cells); the statements below
+   needed the hypothesis width*current < 2^64. /repo commit "fix: percentage no
+   longer wraps for large current values" removed it. *)
+From Coq Require Import ZArith Reals.
+From Flocq Require Import Core.Core.
+From MPB Require Import Base BaseProofs F64 Percent PercentProofs Filler FillerProofs.
+Open Scope Z_scope.
+
+(* zero when current is zero (or negative) or the total is not positive *)
+Theorem C08_cells_zero : forall t c w,
+  (t < 0 \/ c < 0 -> cells t c w = 0) /\ cells 0 c w = 0 /\
+  (1 <= t < 2^63 -> 0 <= w < 2^63 -> cells t 0 w = 0).
+Proof. intros t c w. split; [exact (cells_negative t c w)|split; [exact (cells_zero_total c w)|exact (cells_zero_current t w)]]. Qed.
+Print Assumptions C08_cells_zero.
+
+(* the full width when current has reached a positive total *)
+Theorem C08_cells_full : forall t c w,
+  1 <= t < 2^63 -> t <= c < 2^63 -> 0 <= w < 2^53 -> cells t c w = w.
+Proof. exact cells_full. Qed.
+Print Assumptions C08_cells_full.
+
+(* always within the inner width: every int64 total and current, every width below 2^31 *)
+Theorem C08_cells_range : forall t c w,
+  0 <= t < 2^63 -> 0 <= c < 2^63 -> 0 <= w < 2^31 -> 0 <= cells t c w <= w.
+Proof. exact cells_range. Qed.
+Print Assumptions C08_cells_range.
+
+(* never smaller for a larger current: all pairs current1 <= current2 *)
+Theorem C08_cells_monotone : forall t c1 c2 w,
+  0 <= t < 2^63 -> 0 <= c1 <= c2 -> c2 < 2^63 -> 0 <= w < 2^31 -> cells t c1 w <= cells t c2 w.
+Proof. exact cells_monotone. Qed.
+Print Assumptions C08_cells_monotone.
+
+(* the value is Go's math.Round of the binary64 quotient float64(w)*float64(c)/float64(t) *)
+Theorem C08_cells_is_rounded_quotient : forall t c w,
+  1 <= t < 2^63 -> 0 <= c < t -> 0 <= w < 2^63 -> cells t c w = Znearest (Zle_bool 0) (quot t c w).
+Proof. exact cells_eq_quot. Qed.
+Print Assumptions C08_cells_is_rounded_quotient.
+
+(* the refill segment never exceeds the filled segment *)
+Theorem C08_refill_le_filled : forall t c r w,
+  0 <= t < 2^63 -> 0 <= r <= c -> c < 2^63 -> 0 <= w < 2^31 -> cells t r w <= cells t c w.
+Proof. exact refill_le_filled. Qed.
+Print Assumptions C08_refill_le_filled.
+
+(* filler + refiller + tip + padding + ellipsis cells add up to the inner width
+   exactly: the filled segment is cells up to one component width *)
+Theorem C08_segments_account_for_width : forall st width curw refw fc0 docur,
+  0 <= fc0 <= width -> curw <= width -> refw <= width ->
+  exists nf nr np ne, fill_counts st width curw refw fc0 docur = Some (nf, nr, np, ne)
+    /\ 0 <= nf /\ 0 <= nr /\ 0 <= np /\ 0 <= ne
+    /\ fc0 + nf * fw st + nr * rw st + np * pw st + ne = width
+    /\ (docur = false -> nf = 0 /\ nr = 0)
+    /\ (fc0 + nf * fw st <= Z.max fc0 curw)
+    /\ (fc0 + nf * fw st + nr * rw st <= Z.max (Z.max fc0 curw) refw).
+Proof. exact fill_counts_spec. Qed.
+Print Assumptions C08_segments_account_for_width.
+
+(* PARTIAL: "equals width*current/total rounded to the nearest cell" is proved as
+   "is math.Round of the binary64 quotient" (C08_cells_is_rounded_quotient); the
+   bound |cells - w*c/t| <= 1/2 + 2^-19 on the accumulated rounding error of the
+   three float operations is not proved here; it is checked on every
+   implementation observation by the monitor of ./check C08. *)
+
+Example C08_nonvacuous :
+  cells 9223372036854775807 4611686018427387904 80 = 40 /\ cells 100 33 78 = 26 /\
+  cells 3 1 2 = 1 /\ cells 8 1 100 = 13.
+Proof. vm_compute. repeat split. Qed.
